@@ -458,7 +458,7 @@ func main() {
 
 	nsc, nq := 120, 5
 	if args.Tier == "thorough" {
-		nsc, nq = 700, 6
+		nsc, nq = 500, 6
 	}
 	forks := make([]*common.Rng, nsc)
 	for i := range forks {
